@@ -31,3 +31,12 @@ func (sc *SchedulerCache) VerifStatusUpdaterIdle() bool {
 	}
 	return true
 }
+
+// VerifInFlightPods: see status_updater.VerifInFlightPods.
+func (sc *SchedulerCache) VerifInFlightPods() ([]string, bool) {
+	type lister interface{ VerifInFlightPods() ([]string, bool) }
+	if su, ok := sc.StatusUpdater.(lister); ok {
+		return su.VerifInFlightPods()
+	}
+	return nil, false
+}
